@@ -161,7 +161,10 @@ HANDLE_FAILURE = {
 }
 
 # a layer whose tearDown has been attempted is forgotten at once: no second attempt for the same set-up (C01)
-INV_ATT = "forall(l, Layer, implies(l in G.attempted, l not in setup_layers))"
+# ... and the registry is exact: a layer is recorded in setup_layers iff its setUp has returned and no tearDown has been
+# attempted since (ghost G.up, maintained by the assumed contracts of the two hooks) -- nothing set up is ever forgotten
+INV_ATT = ("(forall(l, Layer, implies(l in G.attempted, l not in setup_layers)) and"
+           " forall(l, Layer, iff(l in G.up, l in setup_layers)))")
 
 SET_POSTS_EXC = [
     INV_ATT,
@@ -175,10 +178,12 @@ SET_POSTS_EXC = [
 SETUP = {
     'property': ['C01', 'C04'],
     'params': {'options': 'Rec[Options]', 'layer': 'Layer', 'setup_layers': 'Dict[Layer,int]'},
-    'ghost': {'bad': 'int', 'ntd': 'bool', 'attempted': 'Set[Layer]'},
+    'ghost': {'bad': 'int', 'ntd': 'bool', 'attempted': 'Set[Layer]', 'up': 'Set[Layer]'},
     'requires': ["WF()", "closed(setup_layers)", "object not in setup_layers", "layer != object", "not G.ntd", INV_ATT],
-    'modifies': ['setup_layers', 'G.bad', 'G.attempted'],
-    'ghost_code': {'setup_layers[layer] = 1': ['G.attempted.discard(layer)']},   # a new set-up: a new tearDown is due
+    'modifies': ['setup_layers', 'G.bad', 'G.attempted', 'G.up'],
+    'ghost_code': {'setup_layers[layer] = 1': ['G.attempted.discard(layer)'],   # a new set-up: a new tearDown is due
+                   # the layer is set up once its setUp hook has returned (or when it has none)
+                   "if hasattr(layer, 'setUp'):": ['G.up.add(layer)']},
     'decreases': "rank(layer)",
     'ensures': [
         "forall(l, Layer, iff(l in setup_layers, old(l in setup_layers) or isanc(l, layer)))",
@@ -223,10 +228,11 @@ TEARDOWN = {
     'property': ['C01', 'C02', 'C04'],
     'params': {'options': 'Rec[Options]', 'needed': 'Dict[Layer,int]', 'setup_layers': 'Dict[Layer,int]',
                'errors': 'List[Tuple[Any,Any]]', 'optional': 'bool'},
-    'ghost': {'bad': 'int', 'ntd': 'bool', 'attempted': 'Set[Layer]'},
+    'ghost': {'bad': 'int', 'ntd': 'bool', 'attempted': 'Set[Layer]', 'up': 'Set[Layer]'},
     'requires': ["WF()", "closed(setup_layers)", "closed(needed)", "object not in setup_layers", INV_ATT],
-    'modifies': ['setup_layers', 'errors', 'G.bad', 'G.ntd', 'G.attempted'],
+    'modifies': ['setup_layers', 'errors', 'G.bad', 'G.ntd', 'G.attempted', 'G.up'],
     'locals': {'unneeded': 'List[Layer]'},
+    'ghost_code': {"if hasattr(layer, 'tearDown'):": ['G.up.discard(layer)']},    # a layer without the hook is simply dropped
     'ensures': [
         "forall(l, Layer, iff(l in setup_layers, old(l in setup_layers) and l in needed))",   # exactly the unneeded ones went
         "G.bad - old(G.bad) == len(errors) - old(len(errors))",                             # C02: one error per failed tearDown
@@ -274,7 +280,7 @@ TEARDOWN = {
 
 
 BADSUM = "G.bad - old(G.bad) == (len(failures) - old(len(failures))) + (len(errors) - old(len(errors)))"
-TEST_GHOST = {'bad': 'int', 'ntd': 'bool', 'attempted': 'Set[Layer]', 'ran': 'int', 'stdout': 'Stream', 'stderr': 'Stream', 'tsu': 'bool', 'hookexc': 'bool',
+TEST_GHOST = {'bad': 'int', 'ntd': 'bool', 'attempted': 'Set[Layer]', 'up': 'Set[Layer]', 'ran': 'int', 'stdout': 'Stream', 'stderr': 'Stream', 'tsu': 'bool', 'hookexc': 'bool',
               'cap_out': 'Opt[Str]', 'cap_err': 'Opt[Str]'}
 STREAMS_SAME = "G.stdout == old(G.stdout) and G.stderr == old(G.stderr)"
 BETWEEN_TESTS = ["not G.tsu", "not G.hookexc"]      # no per-test layer hook pending, none has raised
@@ -332,7 +338,7 @@ RUN_LAYER = {
     'locals': {'gathered': 'List[Layer]'},
     'requires': ["WF()", "closed(setup_layers)", "object not in setup_layers", "not G.ntd", "layer != object", INV_ATT]
                 + BETWEEN_TESTS,
-    'modifies': ['setup_layers', 'failures', 'errors', 'skipped', 'G.bad', 'G.ntd', 'G.attempted', 'G.ran', 'G.stdout', 'G.stderr', 'G.tsu',
+    'modifies': ['setup_layers', 'failures', 'errors', 'skipped', 'G.bad', 'G.ntd', 'G.attempted', 'G.up', 'G.ran', 'G.stdout', 'G.stderr', 'G.tsu',
                  'G.hookexc', 'G.cap_out', 'G.cap_err'],
     'ensures': ["closed(setup_layers)", "object not in setup_layers", "not G.ntd", BADSUM, "result >= 0", INV_ATT,
                 "G.ran == old(G.ran) + result",                       # C12: the count handed to the caller is what ran
@@ -370,11 +376,20 @@ def hook(name, raises, effect=None):
             effect(E, st, None)
         return out + k(st, NONE)
     handler.__name__ = 'HOOK_%s(returns | raises %s)' % (name, '/'.join(raises))
-    handler.modifies = ['G.bad', 'G.ntd', 'G.attempted']
+    handler.modifies = ['G.bad', 'G.ntd', 'G.attempted', 'G.up']
     return handler
 
 
+def _gset(st, name, z, val):
+    from pyvc.vals import HDict
+    if name in st.ghost:
+        g = st.ghost[name]
+        h = st.heap[g.rid]
+        st.heap[g.rid] = HDict(h.kt, h.vt, z3.Store(h.mem, z, z3.BoolVal(val)), h.vals)
+
+
 def teardown_effect(E, st, exc):
+    _gset(st, 'up', st.lookup('layer').z, False)          # whatever the outcome: the tearDown of this set-up was attempted
     if 'attempted' in st.ghost:
         layer = st.lookup('layer')
         g = st.ghost['attempted']
